@@ -209,7 +209,13 @@ pub fn cb_dist(ids: &[u32], table: &[u32], a: &[u32], b: &[u32]) -> f32 {
         let i = ids.iter().position(|x| *x == a[0]).unwrap_or(n);
         let j = ids.iter().position(|x| *x == b[0]).unwrap_or(n);
         let idx = if i < j { pair_index(n, i, j) } else { pair_index(n, j, i) };
-        table.get(idx).copied().unwrap_or(0) as f32
+        let v = table.get(idx).copied().unwrap_or(0);
+        // entries from 2^25 on are the bit pattern of the distance (distances a few ulps apart)
+        if v >= 1 << 25 {
+            f32::from_bits(v)
+        } else {
+            v as f32
+        }
     } else {
         mix(a, b) as f32
     }
